@@ -633,10 +633,11 @@ class GMMMachine(BaseEstimator):
             )
             gaussians_group = hdf5["gaussians"]
             self.means = gaussians_group["means"][...]
-            self.variances = gaussians_group["variances"][...]
+            # the floors first: the variances setter clamps to the current floors
             self.variance_thresholds = gaussians_group["variance_thresholds"][
                 ...
             ]
+            self.variances = gaussians_group["variances"][...]
         else:  # Legacy file version
             logger.info("Loading a legacy HDF5 machine file.")
             n_gaussians = hdf5["m_n_gaussians"][()][0]
